@@ -22,6 +22,8 @@ WrFailures(ev) ==
       x == ExtractKnown(ev.file, urls)
   \* a panic on a bundle that must be refused anyway is a (crude) refusal; on a writable bundle it is a failure
   IN (IF ev.wpanic /\ ~Refused(b) THEN {"writer panics"} ELSE {})
+  \* Bundle.Validate: a primary URL must be the URL of one of the exchanges (as the library spells URLs)
+  \cup (IF ev.valerr = (b.hasprimary /\ ~\E i \in 1..Len(b.exs) : b.exs[i].url = b.primary) THEN {} ELSE {"Validate"})
   \cup (IF Refused(b) = ev.werr THEN {} ELSE {IF ev.werr THEN "writer refuses a bundle it must write" ELSE "writer accepts a bundle it must refuse"})
   \* whatever the writer emits without error is judged (C04), also when it should have refused
   \cup (IF ev.werr THEN {}
